@@ -59,7 +59,7 @@ func init() {
 				sc.Sub = "bare"
 			}
 			genChain(g, sc, n, nvalues(script), g.Pick("sync", "async"), noHotNoAux)
-			sc.SetInt("raw", g.Intn(2))
+			sc.SetInt("raw", g.PickInt(0, 0, 1, 1, 2, 3))
 			return sc
 		},
 		Run: func(e *Env) {
@@ -97,7 +97,7 @@ func init() {
 				sc.Sub = ctor + "-bare"
 			}
 			genChain(g, sc, n, nvalues(script), "sync", noHotNoAux)
-			sc.SetInt("raw", g.Intn(2))
+			sc.SetInt("raw", g.PickInt(0, 0, 1, 1, 2, 3))
 			return sc
 		},
 		Run: func(e *Env) {
@@ -125,7 +125,7 @@ func init() {
 			sc.Sources = []SrcSpec{{Mode: "hot", Producers: g.Range(1, 4), Script: genIllegalScript(g, 10)}}
 			n := g.PickInt(0, 0, 0, 1, 2)
 			genChain(g, sc, n, 4, "sync", noHotNoAux)
-			sc.SetInt("raw", g.Intn(2))
+			sc.SetInt("raw", g.PickInt(0, 0, 1, 1, 2, 3))
 			return sc
 		},
 		Run: func(e *Env) {
